@@ -4,14 +4,14 @@ Run by hand when a finding is added or repaired - never at check time."""
 import json, subprocess, re, glob
 log=subprocess.check_output(['git','-C','/repo','log','--reverse','--format=%h %s']).decode().splitlines()
 fixmap={
-'D1':'fix: clear the pooled map key','D2':"fix: a map entry's value",'D3':'fix: BQTimestampCodec.Size','D5':'fix: reject slices of slices','D6':'fix: reject maps whose values','D7':'fix: nil entries in proto','D8':'fix: a proto map entry','D9':'fix: reject maps of maps','D10':'fix: Marshal by value','D11':'fix: Marshal returns the buffer','D12a':'fix: slice decoders','D12d':'fix: slice decoders','D12b':'fix: StructCodec.Read','D12c':'fix: StructCodec.Read','D12e':'fix: MapCodec.Read','D12f':'fix: TimeCodec','D12g':'fix: JSON map and array codecs','D12h':'fix: Skip never','D12i':'fix: Descriptor.Read validates','D13':'fix: do not publish','D14':'fix: a negative index','D15':'fix: skip every field','D16a':'fix: Descriptor.Read handles slices of bools','D16b':'fix: Descriptor.Read keeps zero-length','D16c':'fix: Descriptor.Read renders map','D16d':'fix: Descriptor.Read renders a JSON nil','D17':'fix: JSONArrayCodec.Read','D18':'fix: plenctag no longer','D19':'fix: plenctag gives','D23':'fix: nullFloatCodec.Size','D26':'fix: a tag option that selects no codec','D27':'fix: plenctag tags the exported names','D28':'fix: plenctag appends its tag','D31':'fix: plenctag panicked on a struct tag that holds only spaces','D32':'fix: plenctag wrote a tag holding a backquote','D33':'fix: Descriptor.Read handles slices of flat integers'}
+'D1':'fix: clear the pooled map key','D2':"fix: a map entry's value",'D3':'fix: BQTimestampCodec.Size','D5':'fix: reject slices of slices','D6':'fix: reject maps whose values','D7':'fix: nil entries in proto','D8':'fix: a proto map entry','D9':'fix: reject maps of maps','D10':'fix: Marshal by value','D11':'fix: Marshal returns the buffer','D12a':'fix: slice decoders','D12d':'fix: slice decoders','D12b':'fix: StructCodec.Read','D12c':'fix: StructCodec.Read','D12e':'fix: MapCodec.Read','D12f':'fix: TimeCodec','D12g':'fix: JSON map and array codecs','D12h':'fix: Skip never','D12i':'fix: Descriptor.Read validates','D13':'fix: do not publish','D14':'fix: a negative index','D15':'fix: skip every field','D16a':'fix: Descriptor.Read handles slices of bools','D16b':'fix: Descriptor.Read keeps zero-length','D16c':'fix: Descriptor.Read renders map','D16d':'fix: Descriptor.Read renders a JSON nil','D17':'fix: JSONArrayCodec.Read','D18':'fix: plenctag no longer','D19':'fix: plenctag gives','D23':'fix: nullFloatCodec.Size','D26':'fix: a tag option that selects no codec','D27':'fix: plenctag tags the exported names','D28':'fix: plenctag appends its tag','D31':'fix: plenctag panicked on a struct tag that holds only spaces','D32':'fix: plenctag wrote a tag holding a backquote','D33':'fix: Descriptor.Read handles slices of flat integers','D34':'fix: BQTimestampCodec.Read of an empty payload'}
 fixmap.update(json.load(open('/verif/tools/fixmap_extra.json')) if glob.glob('/verif/tools/fixmap_extra.json') else {})
 def commit(prefix):
     c=[l.split()[0] for l in log if l.split(' ',1)[1].startswith(prefix)]
     assert len(c)==1,(prefix,c)
     return c[0]
 src=''.join(open(f).read() for f in sorted(glob.glob('/verif/harness/wit/*.go')))
-also={'D1':['C10'],'D2':['C01'],'D3':['C01'],'D4':['C01'],'D5':['C12'],'D6':['C12'],'D8':['C01'],'D12h':['C04'],'D17':['C10'],'D20':['C13'],'D22':['C01'],'D23':['C01'],'D24':['C01'],'D25':['C08'],'D30':['C19']}
+also={'D1':['C10'],'D2':['C01'],'D3':['C01'],'D4':['C01'],'D5':['C12'],'D6':['C12'],'D8':['C01'],'D12h':['C04'],'D17':['C10'],'D20':['C13'],'D22':['C01'],'D23':['C01'],'D24':['C01'],'D25':['C08'],'D30':['C19'],'D34':['C08']}
 avoid={'D4':'generators never produce a pointer to a nil pointer (**T with non-nil outer, nil inner)',
 'D20':'C13/C14 workloads take Descriptor() of non-recursive types only',
 'D21':'C13 value generator keeps flat int8/int16/int32 fields non-negative',
